@@ -8,7 +8,7 @@ import typing
 
 from .._backends.sync import SyncBackend
 from .._backends.base import SOCKET_OPTION, NetworkBackend, NetworkStream
-from .._exceptions import ConnectError, ConnectTimeout
+from .._exceptions import ConnectError, ConnectionNotAvailable, ConnectTimeout
 from .._models import Origin, Request, Response
 from .._ssl import default_ssl_context
 from .._synchronization import Lock, ShieldCancellation
@@ -75,6 +75,11 @@ class HTTPConnection(ConnectionInterface):
         try:
             with self._request_lock:
                 if self._connection is None:
+                    if self._connect_failed:
+                        # An earlier request failed to establish this connection, and
+                        # the pool has given up on it. Have the pool assign this request
+                        # to another connection, rather than connecting on this one.
+                        raise ConnectionNotAvailable()
                     stream = self._connect(request)
 
                     ssl_object = stream.get_extra_info("ssl_object")
